@@ -1,11 +1,276 @@
 /-
-Driver part for the `mode mig` cases of C08 (crash points inside MigrateTopicStoreV1V2); see Kap/Model/C08Mig.lean.
+Driver part for the `mode mig` cases of C08 (process deaths INSIDE MigrateTopicStoreV1V2); model: Kap/Model/C08Mig.lean,
+harness: harness/c08/mig.go (which runs the REAL Service.Open on a real Bolt file, copies database and backup file at
+every sub-step boundary of the migration, restarts a fresh service on each pair of copies).
+
+Case format (first line exactly `mode mig`; the v1/v2/stale lines describe the files before the first Open wherever
+they stand in the case):
+
+    mode mig
+    v1 <T> <id> <level> <time>    event state in the VERSION 1 layout (id may be `%` = empty)
+    v2 <T> <id> <level> <time>    event state already in the V2 layout, version key unset (id non-empty)
+    stale <0|1>                   a left-over <db>.v1.bak (a copy of the initial database) exists
+    uninterrupted                 => <run>                      one Open on the initial files
+    migcrash <j>                  => at <fs> re <run> | none    files after j sub-steps, then the restart on them
+    migcrash2 <j1> <j2>           => at <fs> re <run> | none    second death after j2 sub-steps of the attempt restarted
+                                                                after the first; <fs> = files at the second death
+    migfail <n>                   => <run> re <run>             the n-th transaction of the migration fails (no crash),
+                                                                then a second Open
+    <run> = open <ok|err> mem <dump> <fs>  | panic
+    <fs>  = ver <0|1|err> v1 <dump> v2 <dump> bak <0|1> bakdb <-| ver <0|1|err> v1 <dump> v2 <dump>>
+
+Per line: 1. the property on the OBSERVED output (SPECFAIL `migration-restart`): the restarted service opens, and its
+database is `Mig.migrated` of the INITIAL database (version key set, V1 layout empty, V2 = V1 laid over the old V2),
+its memory shows exactly that V2 content, and no backup file is left, except when the version key was already set at
+the crash (the call is skipped, the copy stays: branch `stale-backup-left`);
+2. the tie (MISMATCH): files at the crash = `Mig.crashAt true`, result of the restart = `Mig.attempt true none`.
+Non-trivial: a V1 record with a non-empty id and a crash point while the backup exists (2 ≤ j ≤ 5).
 -/
 import Kap.Model.C08Mig
 open Kap Kap.C08
 
 namespace Kap.C08.MigDrv
 
-def judge (_lines : Array String) : Verdict := .badop "mode mig: not implemented yet"
+/-! helpers copied from Kap/Driver/C08.lean (that file imports this one) -/
+
+abbrev Dump := List (String × List ES)
+
+def parseES (tok : String) : Option ES :=
+  match tok.splitOn "|" with
+  | [i, l, t] => do
+    let id ← unesc i; let lv ← l.toNat?; let tm ← t.toInt?
+    pure { id := id, level := lv, time := tm }
+  | _ => none
+
+def parseDump (tok : String) : Option Dump :=
+  if tok == "-" then some [] else
+  (tok.splitOn ";").mapM fun part =>
+    match part.splitOn "=" with
+    | [T, l] => do
+      let T ← unesc T
+      let es ← if l == "-" then some [] else (l.splitOn ",").mapM parseES
+      pure (T, es)
+    | _ => none
+
+def sortES (l : List ES) : List ES := l.mergeSort (fun a b => decide (a.id ≤ b.id))
+def sortTopics (d : Dump) : Dump := d.mergeSort (fun a b => decide (a.1 ≤ b.1))
+def canon (d : Dump) : Dump := sortTopics (d.map fun (T, es) => (T, sortES es))
+
+def renderES (e : ES) : String := s!"{esc e.id}|{e.level}|{e.time}"
+def renderDump (d : Dump) : String :=
+  if d.isEmpty then "-" else
+  ";".intercalate (d.map fun (T, es) => esc T ++ "=" ++ (if es.isEmpty then "-" else ",".intercalate (es.map renderES)))
+
+def dumpOfStore (st : Store) (topics ids : List String) : Dump :=
+  canon (topics.map fun T => (T, ids.filterMap (st T)))
+
+def dedup (l : List String) : List String := l.foldl (fun acc x => if acc.contains x then acc else acc ++ [x]) []
+
+/-! observed files -/
+
+/-- content of one Bolt file as the harness read it -/
+structure ODb where
+  readable : Bool := true
+  ver : Bool := false
+  v1 : Dump := []
+  v2 : Dump := []
+deriving BEq
+
+structure OFs where
+  db : ODb
+  bak : Option ODb
+deriving BEq
+
+/-- one process start -/
+structure ORun where
+  opened : Bool
+  mem : Dump
+  fs : OFs
+
+def renderDb (d : ODb) : String :=
+  if !d.readable then "unreadable" else s!"ver {boolTok d.ver} v1 {renderDump d.v1} v2 {renderDump d.v2}"
+
+def renderFs (f : OFs) : String :=
+  renderDb f.db ++ (match f.bak with | none => " bak -" | some b => s!" bak [{renderDb b}]")
+
+def parseDb : List String → Option (ODb × List String)
+  | "ver" :: b :: "v1" :: d1 :: "v2" :: d2 :: rest =>
+    if b == "err" then some ({ readable := false }, rest) else do
+      let v ← if b == "1" then some true else if b == "0" then some false else none
+      let v1 ← parseDump d1; let v2 ← parseDump d2
+      pure ({ ver := v, v1 := canon v1, v2 := canon v2 }, rest)
+  | _ => none
+
+def parseFs (ts : List String) : Option (OFs × List String) := do
+  let (db, rest) ← parseDb ts
+  match rest with
+  | "bak" :: "0" :: "bakdb" :: "-" :: rest' => pure ({ db := db, bak := none }, rest')
+  | "bak" :: "1" :: "bakdb" :: rest' => do
+    let (b, r) ← parseDb rest'
+    pure ({ db := db, bak := some b }, r)
+  | _ => none
+
+def parseRun : List String → Option (ORun × List String)
+  | "open" :: o :: "mem" :: m :: rest => do
+    let ok ← if o == "ok" then some true else if o == "err" then some false else none
+    let mem ← parseDump m
+    let (fs, r) ← parseFs rest
+    pure ({ opened := ok, mem := canon mem, fs := fs }, r)
+  | _ => none
+
+/-- `at <fs> re <run>` -/
+def parseCrashObs : List String → Option (OFs × ORun)
+  | "at" :: rest => do
+    let (a, r) ← parseFs rest
+    match r with
+    | "re" :: r' => do
+      let (run, tail) ← parseRun r'
+      if tail.isEmpty then pure (a, run) else none
+    | _ => none
+  | _ => none
+
+/-! the model's files in the same shape -/
+
+def ofDb (topics ids : List String) (db : Mig.Db) : ODb :=
+  { ver := db.v2flag, v1 := dumpOfStore db.v1 topics ids, v2 := dumpOfStore db.v2 topics ids }
+
+def ofFs (topics ids : List String) (fs : Mig.Fs) : OFs :=
+  { db := ofDb topics ids fs.db, bak := fs.bak.map (ofDb topics ids) }
+
+structure Acc where
+  mm : Option String := none        -- first model/implementation disagreement (reported only if no clause of the spec fails)
+  branches : List String := []
+  nontrivial : Bool := false
+
+def Acc.mismatch (a : Acc) (d : String) : Acc := if a.mm.isSome then a else { a with mm := some d }
+def Acc.br (a : Acc) (b : String) : Acc := if a.branches.contains b then a else { a with branches := a.branches ++ [b] }
+
+/-- The property on the observed result of a (re)start: `expect` = what the migration is supposed to make of the
+INITIAL database. `verAtCrash`: the version key was already "2" on the files the service was started on. -/
+def specRestart (clause what : String) (expect : ODb) (verAtCrash : Bool) (r : ORun) (acc : Acc) : Except Verdict Acc := do
+  if !r.opened then
+    throw (.specfail clause s!"{what}: the alert service does not open on the files as they stood ({renderFs r.fs})")
+  if !r.fs.db.readable then throw (.specfail clause s!"{what}: the database is unreadable after the start")
+  if r.fs.db != expect then
+    throw (.specfail clause s!"{what}: database after the start is [{renderDb r.fs.db}], the migrated initial database is [{renderDb expect}]")
+  if r.mem != expect.v2 then
+    throw (.specfail clause s!"{what}: the started service shows {renderDump r.mem}, the migrated topic states are {renderDump expect.v2}")
+  match r.fs.bak with
+  | none => return acc
+  | some _ =>
+    -- version key already set at the crash: the call returns at once and the copy stays (harmless: the next
+    -- migration, if there ever is one, removes it first)
+    if verAtCrash then return acc.br "stale-backup-left"
+    throw (.specfail clause s!"{what}: a backup file is left behind after a start that migrated")
+
+/-- the tie for one process start -/
+def cmpRun (what : String) (topics ids : List String) (r : ORun) (m : Mig.Fs × Bool) (acc : Acc) : Acc :=
+  let mf := ofFs topics ids m.1
+  if r.opened != m.2 then acc.mismatch s!"{what}: open ok = {r.opened}, model {m.2}"
+  else if r.fs != mf then acc.mismatch s!"{what}: files after the start: model [{renderFs mf}] observed [{renderFs r.fs}]"
+  else if r.opened && r.mem != mf.db.v2 then acc.mismatch s!"{what}: memory: model {renderDump mf.db.v2} observed {renderDump r.mem}"
+  else acc
+
+def parseRec (T i l t : String) : Option (String × ES) := do
+  pure (← unesc T, { id := ← unesc i, level := ← l.toNat?, time := ← t.toInt? })
+
+def judge (lines : Array String) : Verdict := Id.run do
+  -- pass 1: the files before the first Open
+  let mut v1 : List (String × ES) := []
+  let mut v2 : List (String × ES) := []
+  let mut stale := false
+  for l in lines do
+    match (splitObs (tokens l)).1 with
+    | ["v1", T, i, lv, t] =>
+      let some r := parseRec T i lv t | return .badop l
+      v1 := v1 ++ [r]
+    | ["v2", T, i, lv, t] =>
+      let some r := parseRec T i lv t | return .badop l
+      if r.2.id == "" then return .badop s!"v2 record with an empty id: {l}"
+      v2 := v2 ++ [r]
+    | ["stale", b] => stale := b == "1"
+    | _ => pure ()
+  let topics := dedup ((v1 ++ v2).map (·.1))
+  let ids := dedup ((v1 ++ v2).map (·.2.id))
+  let mk (rs : List (String × ES)) : Store := rs.foldl (fun s (T, e) => s.put T e) Store.empty
+  let db0 : Mig.Db := { v2flag := false, v1 := mk v1, v2 := mk v2 }
+  let fs0 : Mig.Fs := { db := db0, bak := if stale then some db0 else none }
+  let expect := ofDb topics ids (Mig.migrated db0)
+  let hasRec := v1.any (fun r => r.2.id != "")
+  let exists? (fs : Mig.Fs) (j : Nat) : Bool := j ≤ (Mig.migSteps true fs).length
+  let inWindow (j : Nat) : Bool := 2 ≤ j && j ≤ 5
+  -- pass 2
+  let mut acc : Acc := {}
+  let mut judged := false
+  for l in lines do
+    let (opT, obs) := splitObs (tokens l)
+    let what := " ".intercalate opT
+    match opT with
+    | ["mode", "mig"] | "v1" :: _ | "v2" :: _ | "stale" :: _ => pure ()
+    | ["uninterrupted"] =>
+      if obs == ["panic"] then return .specfail "restart-panics" what
+      let some (run, []) := parseRun obs | return .mismatch s!"{what}: unparsable observation"
+      match specRestart (if stale then "migration-restart" else "migration-completes") what expect false run acc with
+      | .ok a => acc := a
+      | .error v => return v
+      acc := cmpRun what topics ids run (Mig.attempt true none fs0) acc
+      acc := acc.br "uninterrupted"
+      judged := true
+    | ["migcrash", j] | ["migcrash2", j, _] =>
+      let some j1 := j.toNat? | return .badop l
+      let j2? : Option Nat := match opT with | [_, _, x] => x.toNat? | _ => none
+      if opT.length == 3 && j2?.isNone then return .badop l
+      -- the files at the (last) crash point, on the model
+      let c1 := Mig.crashAt true fs0 j1
+      let present := exists? fs0 j1 && (match j2? with | some j2 => exists? c1 j2 | none => true)
+      let c := match j2? with | some j2 => Mig.crashAt true c1 j2 | none => c1
+      if obs == ["none"] then
+        if present then acc := acc.mismatch s!"{what}: the model has this crash point, the implementation did not get there"
+        else acc := acc.br "crash-point-absent"
+        continue
+      if obs == ["panic"] then return .specfail "restart-panics" what
+      let some (at_, run) := parseCrashObs obs | return .mismatch s!"{what}: unparsable observation"
+      if !at_.db.readable then return .specfail "migration-restart" s!"{what}: the database is unreadable at the crash point"
+      match specRestart "migration-restart" what expect at_.db.ver run acc with
+      | .ok a => acc := a
+      | .error v => return v
+      if !present then
+        acc := acc.mismatch s!"{what}: the implementation has a crash point the model does not have"
+        continue
+      let mc := ofFs topics ids c
+      if at_ != mc then acc := acc.mismatch s!"{what}: files at the crash: model [{renderFs mc}] observed [{renderFs at_}]"
+      acc := cmpRun what topics ids run (Mig.attempt true none c) acc
+      match j2? with
+      | none => acc := acc.br s!"mig-crash-j{j1}"
+      | some j2 =>
+        acc := acc.br "two-crashes"
+        if (Mig.migSteps true c1).isEmpty then acc := acc.br "second-attempt-skipped"
+        else if c1.bak.isSome && j2 ≥ 2 then acc := acc.br "second-attempt-replaces-backup"
+      if hasRec && (inWindow j1 || (match j2? with | some j2 => inWindow j2 | none => false)) then
+        acc := { acc with nontrivial := true }
+      judged := true
+    | ["migfail", n] =>
+      let some n := n.toNat? | return .badop l
+      if n < 1 || n > 3 then return .badop l
+      if obs == ["panic"] then return .specfail "restart-panics" what
+      let some (run1, "re" :: rest) := parseRun obs | return .mismatch s!"{what}: unparsable observation"
+      let some (run2, []) := parseRun rest | return .mismatch s!"{what}: unparsable observation"
+      match specRestart "migration-restart" s!"{what} (the start after the failed one)" expect false run2 acc with
+      | .ok a => acc := a
+      | .error v => return v
+      let m1 := Mig.attempt true (some n) fs0
+      acc := cmpRun s!"{what} (failing start)" topics ids run1 m1 acc
+      acc := cmpRun s!"{what} (next start)" topics ids run2 (Mig.attempt true none m1.1) acc
+      acc := acc.br s!"tx-fails-{n}"
+      judged := true
+    | _ => return .badop l
+  if judged then
+    if stale then acc := acc.br "stale-removed"
+    if v1.any (fun r => r.2.id == "") then acc := acc.br "empty-id-skipped"
+    if v2.any (fun r => r.2.id != "" && v1.any (fun s => s.1 == r.1 && s.2.id == r.2.id)) then acc := acc.br "v2-overlaid"
+    if v2.any (fun r => !v1.any (fun s => s.1 == r.1 && s.2.id == r.2.id)) then acc := acc.br "v2-kept"
+  match acc.mm with
+  | some d => return .mismatch d
+  | none => return .ok acc.nontrivial acc.branches
 
 end Kap.C08.MigDrv
